@@ -519,17 +519,58 @@ func bigTree(r *RNG, leaf func() *Node) *Node {
 
 var bigOneIn = 400
 
+// lookAlike: a literal of another kind whose text prints like l
+func lookAlike(r *RNG, l Lit) (Lit, bool) {
+	switch l.Kind {
+	case "str":
+		body := l.Text[1 : len(l.Text)-1]
+		for _, k := range []struct{ kind, text string }{{"bool", "true"}, {"bool", "false"}, {"null", "null"}} {
+			if body == k.text {
+				return Lit{Kind: k.kind, Text: k.text}, true
+			}
+		}
+		if body == "<nil>" {
+			return Lit{Kind: "null", Text: "null"}, true
+		}
+		if isDigits(body) && (len(body) == 1 || body[0] != '0') && len(body) < 18 {
+			return Lit{Kind: "long", Text: body}, true
+		}
+		if parts := strings.Split(body, "."); len(parts) == 3 && isDigits(parts[0]) && isDigits(parts[1]) && isDigits(parts[2]) {
+			return Lit{Kind: "ver", Text: body}, true
+		}
+		if parts := strings.Split(body, "."); len(parts) == 2 && isDigits(parts[0]) && isDigits(parts[1]) {
+			return Lit{Kind: "dbl", Text: body}, true
+		}
+		return Lit{}, false
+	case "bool", "long", "dbl", "ver":
+		return Lit{Kind: "str", Text: quote(l.Text)}, true
+	case "null":
+		return Lit{Kind: "str", Text: quote(pick(r, []string{"<nil>", "null"}))}, true
+	}
+	return Lit{}, false
+}
+
 func genTree(r *RNG, leaves int, maxSeg int, leaf func() *Node) *Node {
 	if leaf == nil {
 		leaf = func() *Node { return genLeaf(r, maxSeg) }
 	}
 	// paths are reused inside one rule now and then: the same path again, a dotted suffix of it, or an extension of it
 	var used [][]string
+	var usedLeaves []*Node
 	base := leaf
 	leaf = func() *Node {
 		n := base()
 		if (n.T == NCmp || n.T == NPres) && len(n.Path) > 0 {
-			if len(used) > 0 && r.Chance(1, 6) {
+			if len(usedLeaves) > 0 && n.T == NCmp && r.Chance(1, 12) {
+				// the same path and operator as an earlier comparison, with a literal of ANOTHER kind that prints alike
+				// ("true" / true, "1.5" / 1.5, "1.2.3" / 1.2.3, "5" / 5, "<nil>" / null)
+				prev := pick(r, usedLeaves)
+				if la, ok := lookAlike(r, prev.Lit); ok {
+					n.Path = append([]string(nil), prev.Path...)
+					n.Op = prev.Op
+					n.Lit = la
+				}
+			} else if len(used) > 0 && r.Chance(1, 6) {
 				p := pick(r, used)
 				switch {
 				case r.Chance(6, 10):
@@ -541,6 +582,9 @@ func genTree(r *RNG, leaves int, maxSeg int, leaf func() *Node) *Node {
 				}
 			}
 			used = append(used, n.Path)
+			if n.T == NCmp {
+				usedLeaves = append(usedLeaves, n)
+			}
 		}
 		return n
 	}
